@@ -506,7 +506,10 @@ def corrupt(traces: List[List[Dict[str, Any]]], seed: int) -> List[Tuple[List[Di
     rnd = random.Random(seed)
     out = []
     for t in traces:
-        starts = [i for i, e in enumerate(t) if e["e"] == "start"]
+        # only actions whose item is never the target of a cancel call: with such a call somewhere in the trace a
+        # corrupted copy (the run dropped, or moved) can coincide with a legal behaviour in which the cancel won
+        cancelled = {e.get("id") for e in t if e["e"] == "call" and e.get("op") == "cancel"}
+        starts = [i for i, e in enumerate(t) if e["e"] == "start" and e.get("id") not in cancelled]
         if not starts:
             continue
         k = rnd.choice(starts)
